@@ -918,12 +918,13 @@ func c18Run(t *testing.T, r *sim.Run, tier string) {
 			emptyUnit = refCSS[T.Intn(len(refCSS), "empty-table-unit")].Unit
 			existing = append(existing, &ComparisonSeries{Unit: emptyUnit, Benchmarks: []string{}, Series: []string{}, Summaries: [][]*ComparisonSummary{}, HashPairs: map[string]ComparisonHashes{}})
 		}
+		var existingTwin []*ComparisonSeries // the same saved series read a second time: equal inputs for a second, independent build
 		if T.Bool("existing-through-json") {
 			// what -jo writes and -ji reads
 			if data, err := json.Marshal(existing); err == nil {
-				var back []*ComparisonSeries
-				if err := json.Unmarshal(data, &back); err == nil && len(back) == len(existing) {
-					existing = back
+				var back, back2 []*ComparisonSeries
+				if err := json.Unmarshal(data, &back); err == nil && len(back) == len(existing) && json.Unmarshal(data, &back2) == nil {
+					existing, existingTwin = back, back2
 					r.Hit("existing series passed through their JSON form")
 				}
 			}
@@ -978,6 +979,33 @@ func c18Run(t *testing.T, r *sim.Run, tier string) {
 				wantOrder = append(wantOrder, given[i].Unit)
 			}
 			seenU[given[i].Unit] = true
+		}
+		// where they stand in the slice is not prescribed, but it is a function of the inputs: a second builder fed the
+		// same results and the same saved series returns them in the same places
+		if existingTwin != nil && err == nil {
+			var warns2 []string
+			b3, _ := NewBuilder(sOpts(withTable, &warns2))
+			rd := benchfmt.NewReader(strings.NewReader(txt.String()), "set")
+			for rd.Scan() {
+				if res, ok := rd.Result().(*benchfmt.Result); ok {
+					b3.Add(res)
+				}
+			}
+			var out2 []*ComparisonSeries
+			func() {
+				defer func() { recover() }()
+				out2, _ = b3.AllComparisonSeries(existingTwin, policy)
+			}()
+			var u1, u2 []string
+			for _, cs := range out {
+				u1 = append(u1, cs.Unit)
+			}
+			for _, cs := range out2 {
+				u2 = append(u2, cs.Unit)
+			}
+			if out2 != nil && strings.Join(u1, "\x00") != strings.Join(u2, "\x00") {
+				r.FailNonRepro("series", r.Lane+"/table-order-not-reproducible", "two builders fed the same results and the same saved series return the tables in different orders: %q vs %q", u1, u2)
+			}
 		}
 		// each of them comes back once; where in the slice is not prescribed
 		sort.Strings(gotOrder)
